@@ -80,6 +80,13 @@ def cases(tier, seed):
             out.append({"kind": "run", "cls": solver, "solver": solver, "idx": idx, "seed": seed, "maxd": maxd,
                         "nseeds": 2 if tier == "quick" else 4})
             idx += 1
+    # size ladder: more columns / rows than the default block size and test-sketch size (8), than 16 and than 32
+    for dims in ([(12, 9), (24, 12), (20, 17), (33, 10), (18, 18)] if tier == "quick" else
+                 [(12, 9), (24, 12), (20, 17), (33, 10), (18, 18), (40, 33), (26, 25), (64, 9), (17, 16), (48, 20)]):
+        for solver in ("rsp_column_qr", "rsp_column_spd", "rsp_row", "rsp_compute", "hybrid", "cgne"):
+            for k in range(2 if tier == "quick" else 4):
+                out.append({"kind": "run", "cls": solver, "solver": solver, "idx": idx, "seed": seed, "maxd": maxd, "nseeds": 1, "dims": list(dims)})
+                idx += 1
     # deterministic CGNE: every iteration budget 1..B on a few ill-conditioned inputs (the flag must follow the LAST residual)
     for k in range(6 if tier == "quick" else 40):
         out.append({"kind": "run", "cls": "cgne_all_budgets", "solver": "cgne_budgets", "idx": idx, "seed": seed, "maxd": maxd, "nseeds": 1})
@@ -94,6 +101,9 @@ def _matrix(rng, spec, orientation):
     m, n = (b, a) if orientation == "tall" else (a, b)
     if spec["idx"] % 9 == 0:
         m = n = a
+    if "dims" in spec:
+        b, a = max(spec["dims"]), min(spec["dims"])
+        m, n = (b, a) if orientation == "tall" else (a, b)
     N = min(m, n)
     kap = float(rng.choice([1.0, 10.0, 1e2, 1e3], p=[0.3, 0.4, 0.2, 0.1]))
     scale = float(rng.choice([1e-2, 1.0, 1.0, 1e2]))
